@@ -738,6 +738,7 @@ func (c *Client) Do(ctx context.Context, q Query) (err error) {
 	})
 	g.Go(func() error {
 		// Receiving query result, data and telemetry.
+		defer verifGate("recv.afterDoneClosed")
 		defer close(done)
 		if colInfo != nil {
 			defer close(colInfo)
